@@ -17,6 +17,15 @@ Theorem C08_precedence_and_associativity :
 Proof. exact c08_expr. Qed.
 Print Assumptions C08_precedence_and_associativity.
 
+(* the same for every reading of the precedence climb, including those outside the layered grammar
+   (a prefix NOT in the operand position of a tighter operator: a = NOT b, a + NOT b * c, - NOT a);
+   [wf e -> wfx e] is ExprProof.wf_wfx *)
+Theorem C08_precedence_climb_all_readings :
+  forall e, wfx e -> forall rest, follow_ok rest ->
+    explain_model (parse_model (print e ++ rest)) = Ok (ref e, rest).
+Proof. exact c08_expr_climb. Qed.
+Print Assumptions C08_precedence_climb_all_readings.
+
 (* the literal reading of explainBinaryExpr (collect the operands, then print each) agrees with
    the fused recursion used by the model *)
 Theorem C08_explain_binary_as_in_go :
@@ -33,6 +42,12 @@ Theorem C08_explain_binary_as_in_go :
         Ok (function_node (operator_to_function op) [cl; cr]))).
 Proof. exact explain_binary_unfused. Qed.
 Print Assumptions C08_explain_binary_as_in_go.
+
+(* the fuel of the model is never exhausted, on any token list whatsoever: OutOfFuel cannot mask a
+   difference between the (fuel-less) Go code and the model *)
+Theorem C08_model_total : forall ts, explain_model (parse_model ts) <> OutOfFuel.
+Proof. exact explain_model_total. Qed.
+Print Assumptions C08_model_total.
 
 (* NOT a OR b AND c = d || e + - f * 2 OR g      (7 binary operators, every level) *)
 Definition example : sexpr :=
@@ -76,6 +91,12 @@ Example example_ref :
     (12%nat, b "Literal UInt64_2");
     (2%nat, b "Identifier g") ].
 Proof. vm_compute. reflexivity. Qed.
+
+(* a + NOT b * c  reads  plus(a, not(multiply(b, c))): outside the layered grammar, inside wfx *)
+Definition example_x : sexpr :=
+  Bin OPlus (Id (b "a")) (Not false (Bin OMul (Id (b "b")) (Id (b "c")))).
+Example example_x_wfx : wfx example_x /\ ~ wf example_x.
+Proof. split; [vm_compute; reflexivity|vm_compute; discriminate]. Qed.
 
 Example example_model :
   explain_model (parse_model (print example)) = Ok (ref example, []).
